@@ -315,6 +315,47 @@ mod verif_nx_pipeline {
         assert!(n > 1_000, "enumeration ran");
     }
 
+    // C11 first clause on lines that go through the SECOND wrapping pass: a multi-line string whose body is indented differently
+    // from where the formatter puts it is re-indented after the first pass and its logical line is wrapped again.  Every failing
+    // (input, limit) is collected and reported together, so that a recorded finding for one input cannot hide another.
+    #[test]
+    fn verif_nx_pipeline_wrap_limit_reflow() {
+        let mut texts: Vec<String> = Vec::new();
+        for ind in [0usize, 6, 10, 14, 22, 40] {
+            for args in ["aaaaaaaa, b", "aa, b", "aaaaaaaaaaaa, bbbbbbbbb, cc"] {
+                let sp = " ".repeat(ind);
+                let lit = format!("'''\n{sp}a\n{sp}'''.format({args});");
+                texts.push(format!("procedure P;\nbegin\n  B := {lit}\n  Foo;\nend;"));
+                texts.push(format!("procedure P;\nbegin\n  A := procedure\n    begin\n      B := {lit}\n      Foo;\n    end;\nend;"));
+                texts.push(format!("procedure P;\nbegin\n  if C then\n    B := {lit}\n  Foo(procedure begin B := {lit} end);\nend;"));
+                texts.push(format!("procedure P;\nbegin\n  A := procedure\n    begin\n      C := procedure\n        begin\n          B := {lit}\n        end;\n    end;\nend;"));
+            }
+        }
+        let wide = leak(config(false, 2, 2, false, 200, false));
+        let mut n = 0u64;
+        let mut failing: Vec<String> = Vec::new();
+        for p in &texts {
+            let (w, _) = fmt(wide, p, Vec::new());
+            let mut prev_lines = usize::MAX;
+            for limit in 12..=90u32 {
+                let narrow = leak(config(false, 2, 2, false, limit, false));
+                let (o, _) = fmt(narrow, p, Vec::new());
+                if w.split('\n').all(|l| l.len() as u32 <= limit) && o != w {
+                    failing.push(format!("case=fits_but_differs limit={} input={:?}", limit, p));
+                }
+                let lines = o.split('\n').count();
+                if lines > prev_lines {
+                    failing.push(format!("case=wider_more_lines limit={} input={:?}", limit, p));
+                }
+                prev_lines = lines;
+                n += 1;
+            }
+        }
+        println!("NX pipeline_wrap_limit_reflow: {} cases", n);
+        assert!(n > 5_000, "enumeration ran");
+        assert!(failing.is_empty(), "OB pipeline/limit_not_style_after_reflow: a result for a wider limit that already fits the narrower limit is also the result for the narrower limit, and widening never adds lines - also for lines wrapped a second time after a multi-line string was re-indented\n failing cases ({}):\n{}", failing.len(), failing.join("\n"));
+    }
+
     // C09 third clause: the line endings of the INPUT do not matter (inputs without line-spanning tokens), also for
     // malformed lines such as an unterminated literal or a comment at the end of a line
     #[test]
